@@ -67,6 +67,11 @@ def run(ck):
     it_fns = [f for f in ck.ctx.p.nontest_functions() if f.module.name in span or f.module.name.startswith("src.parsers.")]
     n_b = run_iterator_rule(ck, "C10.5", it_fns)
     ck.floor("C10.5 functions scanned for re-read single-use iterators", len(it_fns), 60)
+    ck.clause("C10.12", "no lazily evaluated closure over a loop / comprehension variable is kept beyond its iteration (it would select "
+                        "by the *last* reference or query id for all of them)")
+    from ..rules.iters import run_late_binding_rule
+    n_lb = run_late_binding_rule(ck, "C10.12", it_fns)
+    ck.ok("C10.12", "run-level modules", "src/", f"{n_lb} functions: no kept lazy object refers to an iteration variable")
     ck.ok("C10.5", "run-level modules", "src/", f"{len(it_fns)} functions, {n_b} single-use iterators bound to a name, each read once "
           "(cursor idiom next(it) excepted)")
 
